@@ -105,7 +105,18 @@ def cases(draw: T.Any) -> dict:
     # an extra executable / static library / custom target placed with build_subdir: (since 1.10: "places the build results
     # in a subdirectory of the given name"), the value the intro filename must follow
     bsd = draw(st.sampled_from([None, None, 'bsd nest', 'bsd_x/y z']))       # (names no model target can collide with)
-    return {'model': model, 'tests': tests, 'opts': opts, 'prefix': prefix, 'install': inst, 'build_subdir': bsd}
+    # a small extra subproject whose options yield to same-named options of the parent; the user may set them to anything,
+    # also to exactly the value they already have in the subproject's option file
+    osp = None
+    if draw(st.booleans()):
+        osp = {}
+        if draw(st.booleans()):
+            osp['flavour'] = draw(st.sampled_from(['chocolate', 'vanilla', 'strawberry']))
+        if draw(st.booleans()):
+            osp['level'] = str(draw(st.sampled_from([7, 3, 11])))
+        if draw(st.booleans()):
+            osp['plain'] = draw(st.sampled_from(['sub default', 'given']))
+    return {'model': model, 'tests': tests, 'opts': opts, 'prefix': prefix, 'install': inst, 'build_subdir': bsd, 'osp': osp}
 
 
 def q(s: str) -> str:
@@ -141,6 +152,15 @@ def extras(c: dict, logdir: str) -> T.Tuple[T.List[str], T.Dict[str, str]]:
         lines.append(f"executable('bsd_prog', 'bsd_main.c', build_subdir: {b})")
         lines.append(f"static_library('bsd_lib', 'bsd_lib.c', build_subdir: {b})")
         lines.append(f"custom_target('bsd_gen', output: 'bsd_gen.txt', command: [dump, '@OUTPUT@'], build_subdir: {b})")
+    if c.get('osp') is not None:
+        files['meson.options'] += ("option('flavour', type: 'combo', choices: ['chocolate', 'vanilla', 'strawberry'], value: 'strawberry')\n"
+                                   "option('level', type: 'integer', value: 3, min: 0, max: 100)\n")
+        files['subprojects/osp/meson.options'] = ("option('flavour', type: 'combo', choices: ['chocolate', 'vanilla', 'strawberry'], value: 'chocolate', yield: true)\n"
+                                                  "option('level', type: 'integer', value: 7, min: 0, max: 100, yield: true)\n"
+                                                  "option('plain', type: 'string', value: 'sub default')\n")
+        files['subprojects/osp/meson.build'] = ("project('osp')\n" + ''.join(
+            f"message('OPT:osp:{o}=@0@'.format(get_option('{o}')))\n" for o in ('flavour', 'level', 'plain')))
+        lines.append("subproject('osp')")
     ins = c['install']
     for fn, d, tag in ins['data']:
         files[fn] = f'data {fn}\n'
@@ -194,7 +214,8 @@ def check_case(c: dict, workdir: str, ev: T.Optional[Evidence], sub: bool = Fals
         write_tree(src, files)
         os.chmod(os.path.join(src, 'gen.py'), 0o755)
         os.chmod(os.path.join(src, 'dump.py'), 0o755)
-        args = ['setup', f'--prefix={c["prefix"]}'] + projgen.setup_args(model) + [f'-D{k}={v}' for k, v in sorted(c['opts'].items())] + [bld, src]
+        args = ['setup', f'--prefix={c["prefix"]}'] + projgen.setup_args(model) + [f'-D{k}={v}' for k, v in sorted(c['opts'].items())] \
+            + [f'-Dosp:{k}={v}' for k, v in sorted((c.get('osp') or {}).items())] + [bld, src]
         r = (run_sub if sub else run_inproc)(args)
         if r.rc != 0:
             if ev is not None:
@@ -298,7 +319,7 @@ def check_case(c: dict, workdir: str, ev: T.Optional[Evidence], sub: bool = Fals
             return Failure('targets/set-differs', c, f'intro-targets.json lists {names}, the build definition declares {sorted(want_names)}')
         # ---- buildoptions ---------------------------------------------------
         bo = {o['name']: o['value'] for o in load('buildoptions')}
-        msgs = dict(x[4:].split('=', 1) for x in r.messages() if x.startswith('OPT:'))
+        msgs = dict(x[4:].split('=', 1) for x in r.messages() + r.sub_messages('osp') if x.startswith('OPT:'))
         for k, shown in msgs.items():
             if k not in bo:
                 return Failure('buildoptions/missing', c, f'intro-buildoptions.json has no entry for {k!r} although get_option({k!r}) returned {shown!r}')
@@ -522,7 +543,7 @@ CORPUS_FIXED = [
     'test cases/common/9 header install', 'test cases/common/45 custom install dirs', 'test cases/common/153 wrap file should not failed',
     'test cases/common/105 generatorcustom', 'test cases/common/117 shared module', 'test cases/common/145 recursive linking',
     'test cases/common/98 subproject subdir', 'test cases/common/8 install', 'test cases/common/186 test depends',
-    'test cases/common/13 pch',
+    'test cases/common/13 pch', 'test cases/rust/22 cargo subproject', 'test cases/rust/33 cargo workspace',
 ]
 
 
